@@ -155,7 +155,7 @@ def serve_stream(S):
         for b in emitted:
             w = [i for i, e in enumerate(S.trace) if e[0] == "write_batch" and e[2] is b]
             S.oblige("O4.batch_emitted_with_finish_is_written_before_the_stream_ends", len(w) == 1 and close_at is not None and w[0] < close_at, kind="trace", witness=script)
-        S.oblige("O4.stream_ends_when_the_producer_finishes", idx("finished") > idx("input_read", last=True) and "process" not in names[idx("finished") :] and "input_read" not in names[idx("finished") :], kind="trace")
+        S.oblige("O4.stream_ends_when_the_producer_finishes", idx("input_read", last=True) is not None and idx("finished") > idx("input_read", last=True) and "process" not in names[idx("finished") :] and "input_read" not in names[idx("finished") :], kind="trace")
         S.oblige("O4.finish_is_not_an_error", "error_batch" not in names and G["n_error_batch"] == 0, kind="trace")
     if script is not None and "finish" in script and not producer:
         S.oblige("O2.exchange_refuses_finish", "finished" not in names and "finish_refused" in names and "error_batch" in names, kind="trace", witness=script)
@@ -267,7 +267,7 @@ def collector(S):
     other_schema = SObj(None, kind="Schema", tag="other", names=["b", "a", "c"])
     H["Schema.__eq__"] = lambda S, a, b: a is b
     S.inline.update({"OutputCollector", "dataclass:AnnotatedBatch", "_flush_collector"} | {"OutputCollector." + m for m in ("emit", "finish", "validate", "data_batch", "merge_data_metadata", "emit_client_log_message", "finished", "batches")})
-    H["empty_batch"] = lambda S, schema: SObj(None, kind="Batch", tag="log", schema=schema)
+    H["empty_batch"] = lambda S, schema: SObj(None, kind="Batch", tag="log", schema=schema, num_rows=0)
     H["encode_metadata"] = lambda S, md: SObj(None, kind="KVMeta", tag="encoded")
     H["merge_metadata"] = lambda S, *mds: SObj(None, kind="KVMeta", tag="merged", parts=mds)
     H["Msg.add_to_metadata"] = lambda S, m: {}
@@ -302,7 +302,7 @@ def collector(S):
     for _ in range(logs_before):
         add_log()
     if has_data:
-        data0 = SObj(None, kind="Batch", tag="data", schema=out_schema)
+        data0 = SObj(None, kind="Batch", tag="data", schema=out_schema, num_rows=1)
         S.interp.call_value(S.interp.getattr_value(oc, "emit"), [data0], {})
     for _ in range(logs_after):
         add_log()
@@ -312,10 +312,9 @@ def collector(S):
     S.oblige("O1.state_setup_is_the_described_state", len(before) == logs_before + logs_after + (1 if has_data else 0) and sum(1 for ab in before if _is_data(ab)) == (1 if has_data else 0) and oc.fields["_finished"] is finished, kind="lemma")
     op = COLLECTOR_OPS[S.choose(len(COLLECTOR_OPS))]
     S.inputs.update({"producer_mode": producer_mode, "logs_before": logs_before, "has_data": has_data, "logs_after": logs_after, "finished": finished, "op": op})
-    newb = SObj(None, kind="Batch", tag="data", schema=(other_schema if op == "emit_other_schema" else out_schema))
+    newb = SObj(None, kind="Batch", tag="data", schema=(other_schema if op == "emit_other_schema" else out_schema), num_rows=1)
     W = SObj(None, kind="IpcWriter")
     H["IpcWriter.write_batch"] = lambda S, w, batch, custom_metadata=None: S.event("write_batch", batch, custom_metadata)
-    call = lambda name, *a: S.outcome(lambda: S.interp.call_value(S.interp.getattr_value(oc, name), list(a), {}))  # noqa: E731
 
     def outcome_of(fn):
         try:
@@ -700,9 +699,11 @@ def stream_header(S):
     S.oblige("O6.exactly_one_complete_stream_on_the_destination", names.count("stream_open") == 1 and names.count("stream_close") == 1 and S.events("stream_open")[0][1] is dest and names.index("stream_open") < names.index("stream_close"), kind="trace")
     ws = S.events("write_batch")
     S.oblige("O6.header_batch_written_exactly_once", len(ws) == 1 and (ws[0][2] is hb or ws[0][2] is ptr) and ws[0][1] is dest, kind="trace")
-    S.oblige("O6.header_batch_is_inside_the_stream", names.index("stream_open") < names.index("write_batch") < names.index("stream_close"), kind="trace")
+    at = lambda n: names.index(n) if n in names else None  # noqa: E731
+    chain = lambda *xs: all(x is not None for x in xs) and all(a < b for a, b in zip(xs, xs[1:]))  # noqa: E731
+    S.oblige("O6.header_batch_is_inside_the_stream", chain(at("stream_open"), at("write_batch"), at("stream_close")), kind="trace")
     if with_sink:
-        S.oblige("O6.buffered_logs_flushed_into_the_header_stream_before_the_header", names.count("sink_flush") == 1 and names.index("stream_open") < names.index("sink_flush") < names.index("write_batch"), kind="trace")
+        S.oblige("O6.buffered_logs_flushed_into_the_header_stream_before_the_header", names.count("sink_flush") == 1 and chain(at("stream_open"), at("sink_flush"), at("write_batch")), kind="trace")
     S.canary("O6.canary.never_externalized", T(not ws or ws[0][2] is hb))
 
 
@@ -824,9 +825,27 @@ def stream_session(S):
             cm = wrote[0][2]
             S.oblige("O7.cancel_sends_a_cancel_marked_batch", cm is not None and cm.get(CANCEL_KEY) is not None, kind="trace")
     n_io = len(S.events("io"))
-    second = ["tick", "exchange", "cancel", "close"][S.choose(4)]
-    S.inputs["second"] = second
-    args = [SObj(None, kind="AB", batch=SObj(None, kind="Batch", tag="user"), custom_metadata=None)] if second == "exchange" else []
+    second = ["tick", "exchange", "cancel", "close", "iterate"][S.choose(5)]
+    S.inputs["second"] = second if second != "iterate" else "tick"
+    if second == "iterate":
+        # `for batch in session`: drive the real generator; it must refuse like tick() and hand out nothing
+        S.inline.add("StreamSession.tick")
+        S.invariants[("StreamSession.__iter__", 0)] = lambda L: []
+        handed_out = []
+
+        def hand_out(v):
+            handed_out.append(v)
+            S.oblige("O7.iteration_after_" + first + "_raises_RpcError_and_hands_out_nothing", False, kind="raises", witness="hands out a batch")
+
+        try:
+            S.interp.call_function(rc.StreamSession.__iter__, [me], {}, yield_hook=hand_out)
+            it_exc = None
+        except PyRaise as e:
+            it_exc = e.exc
+        S.oblige("O7.iteration_after_" + first + "_raises_RpcError_and_hands_out_nothing", it_exc is not None and exc_is(it_exc, RpcError) and not handed_out, kind="raises")
+        S.oblige("O7.iteration_after_" + first + "_performs_no_io", len(S.events("io")) == n_io, kind="trace")
+        return
+    args = [SObj(None, kind="AB", batch=SObj(None, kind="Batch", tag="user", schema=SObj(None, kind="Schema", tag="in")), custom_metadata=None)] if second == "exchange" else []
     o2 = S.outcome(getattr(rc.StreamSession, second), me, *args)
     no_io = len(S.events("io")) == n_io
     if second in ("tick", "exchange"):
@@ -881,7 +900,9 @@ def http_session(S):
 
     H["_open_response_stream"] = open_resp
     H["_drain_stream"] = lambda S, r: (raise_(pa.ArrowInvalid, "garbage") if S.choose(2) == 1 else None)
-    S.inline.add("HttpStreamSession._token_metadata")
+    H["_read_batch_with_log_check"] = lambda S, reader, on_log=None, external_config=None, shm=None: SObj(None, kind="AB", batch=SObj(None, kind="Batch", tag="response"), custom_metadata=None)
+    H["strip_keys"] = lambda S, md, *keys: md
+    S.inline.update({"HttpStreamSession._token_metadata", "dataclass:AnnotatedBatch"})
     state0 = [None, "token"][S.choose(2)]
     finished0 = S.choose(2) == 1
     me = SObj(
